@@ -19,16 +19,29 @@ def one(p):
 
 def main():
     pats = sorted(glob.glob(os.path.join(HERE, "mutants", "*.patch")) + glob.glob(os.path.join(HERE, "equivalent", "*.patch")))
-    pats += sorted(glob.glob(os.path.join(os.path.dirname(HERE), "seeded", "*", "patch.diff")))
+    pats += sorted(os.path.dirname(x) for x in glob.glob(os.path.join(os.path.dirname(HERE), "seeded", "*", "patch.diff")))
     only = [a for a in sys.argv[1:] if not a.startswith("-")]
     if only:
         pats = [p for p in pats if any(o in p for o in only)]
     bad = 0
+    results = []
     with cf.ThreadPoolExecutor(max_workers=8) as ex:
         for p, ok, out in ex.map(one, pats):
             sys.stdout.write(out)
             bad += 0 if ok else 1
+            checks = {}
+            for line in out.splitlines():
+                parts = line.split()
+                if len(parts) >= 3 and parts[-1] in ("caught", "MISSED", "silent", "FALSE-ALARM", "caught-but-key-mismatch") and parts[-2].startswith("C"):
+                    checks[parts[-2]] = parts[-1]
+            kind = "equivalent" if "/equivalent/" in p else "mutant"
+            results.append({"patch": os.path.relpath(p, os.path.dirname(HERE)), "kind": kind, "checks": checks, "ok": ok})
     print("%d patches, %d unexpected outcomes" % (len(pats), bad))
+    if not only:
+        import json
+        import subprocess as sp
+        tree = sp.run(["git", "-C", "/repo", "rev-parse", "--short", "HEAD"], stdout=sp.PIPE, text=True).stdout.strip()
+        json.dump({"tree": tree, "patches": len(pats), "unexpected": bad, "results": results}, open(os.path.join(HERE, "results.json"), "w"), indent=1)
     return 1 if bad else 0
 
 
